@@ -113,5 +113,64 @@ def main_inactive():
     sys.exit(1 if fails else 0)
 
 
+def main_more():
+    """bounded stand-in: further transformations documented as electrically neutral, on fixed networks: an impedance with shunt admittances replaced
+    by a line, a subnet with an open switch at a three-winding transformer, dropping inactive elements around a three-winding transformer whose lv
+    side is isolated"""
+    fails = []
+    # (1) impedance with a symmetric shunt part -> line
+    net = pp.create_empty_network()
+    b = pp.create_buses(net, 3, 110.)
+    pp.create_ext_grid(net, b[0], vm_pu=1.02)
+    pp.create_impedance(net, b[0], b[1], rft_pu=0.01, xft_pu=0.05, sn_mva=100., gf_pu=0.002, bf_pu=0.09, gt_pu=0.002, bt_pu=0.09)
+    pp.create_line_from_parameters(net, b[1], b[2], 20., 0.06, 0.3, 10., 1.)
+    pp.create_load(net, b[2], 40., 10.)
+    ref = copy.deepcopy(net); pp.runpp(ref)
+    try:
+        pp.replace_impedance_by_line(net)
+        pp.runpp(net)
+        d = np.max(np.abs(net.res_bus.vm_pu.values - ref.res_bus.vm_pu.values))
+        dq = abs(net.res_ext_grid.q_mvar.sum() - ref.res_ext_grid.q_mvar.sum())
+        if len(net.impedance) == 0 and (d > 1e-7 or dq > 1e-5):
+            fails.append(f"replace_impedance_by_line (impedance with gf = gt, bf = bt): bus voltages change by {d:.2e} pu, slack reactive power by {dq:.3f} Mvar")
+    except Exception as e:
+        fails.append(f"replace_impedance_by_line: {type(e).__name__}: {str(e)[:80]}")
+
+    # (2) / (3) three-winding transformer with an open switch at its lv side
+    def t3net():
+        net = pp.create_empty_network()
+        hv = pp.create_bus(net, 110.); mv = pp.create_bus(net, 20.); lv = pp.create_bus(net, 10.); far = pp.create_bus(net, 20.)
+        pp.create_ext_grid(net, hv, vm_pu=1.02)
+        t = pp.create_transformer3w_from_parameters(net, hv, mv, lv, 110., 20., 10., 63., 40., 25., 10., 10.5, 11., .3, .32, .34, 30., .1)
+        pp.create_switch(net, lv, t, "t3", closed=False)
+        pp.create_line_from_parameters(net, mv, far, 5., 0.12, 0.11, 250., 0.6)
+        pp.create_load(net, far, 10., 2.); pp.create_load(net, lv, 5., 1.)
+        return net, (hv, mv, lv, far)
+    net, buses = t3net()
+    ref = copy.deepcopy(net); pp.runpp(ref)
+    sub = pp.select_subnet(net, list(buses))
+    pp.runpp(sub)
+    if not np.allclose(sub.res_bus.vm_pu.values, ref.res_bus.vm_pu.values, atol=1e-8, equal_nan=True):
+        fails.append(f"select_subnet of all buses (open t3 switch at the lv side of a trafo3w): bus voltages {np.round(sub.res_bus.vm_pu.values, 5)} "
+                     f"instead of {np.round(ref.res_bus.vm_pu.values, 5)} ({len(sub.switch)} of {len(net.switch)} switches kept)")
+    net, buses = t3net()
+    ref = copy.deepcopy(net); pp.runpp(ref)
+    pp.drop_inactive_elements(net)
+    try:
+        pp.runpp(net)
+        common = [i for i in net.bus.index if not np.isnan(ref.res_bus.vm_pu.at[i])]
+        got = net.res_bus.vm_pu.loc[common].values
+        if not np.allclose(got, ref.res_bus.vm_pu.loc[common].values, atol=1e-8, equal_nan=False):
+            fails.append(f"drop_inactive_elements (trafo3w with an isolated lv side): voltages of the supplied buses {np.round(got, 5)} instead of "
+                         f"{np.round(ref.res_bus.vm_pu.loc[common].values, 5)}; slack {net.res_ext_grid.p_mw.sum():.4f} instead of {ref.res_ext_grid.p_mw.sum():.4f} MW")
+    except Exception as e:
+        fails.append(f"drop_inactive_elements (trafo3w with an isolated lv side): {type(e).__name__}: {str(e)[:80]}")
+    for f in fails:
+        print("REPRODUCED:", f)
+    if not fails:
+        print("not reproduced: the replayed transformations keep the power flow results")
+    sys.exit(1 if fails else 0)
+
+
 if __name__ == "__main__":
     main()
